@@ -64,10 +64,19 @@ def main():
                 doc = json.load(f)
             case = harness.unhex(doc["case"])
             harness.debug_logging(isinstance(case, dict) and bool(case.get("_debug_logging")))
+            import warnings
+            wctx = warnings.catch_warnings()
+            wctx.__enter__()
+            harness.warnings_as_errors(isinstance(case, dict) and bool(case.get("_warnings_as_errors")))
             try:
-                mod.replay(ctx, case)
+                if isinstance(case, dict) and "_job" in case:
+                    ctx.acc.merge(harness.replay_job(mod, case))
+                else:
+                    mod.replay(ctx, case)
             finally:
                 harness.debug_logging(False)
+                harness.warnings_as_errors(False)
+                wctx.__exit__(None, None, None)
             acc = ctx.acc
             rc = 0
             for key in sorted(acc.known):
@@ -86,10 +95,19 @@ def main():
             before = set(ctx.acc.viol)
             case = harness.unhex(doc["case"])
             harness.debug_logging(isinstance(case, dict) and bool(case.get("_debug_logging")))
+            import warnings
+            wctx = warnings.catch_warnings()
+            wctx.__enter__()
+            harness.warnings_as_errors(isinstance(case, dict) and bool(case.get("_warnings_as_errors")))
             try:
-                mod.replay(ctx, case)
+                if isinstance(case, dict) and "_job" in case:
+                    ctx.acc.merge(harness.replay_job(mod, case))
+                else:
+                    mod.replay(ctx, case)
             finally:
                 harness.debug_logging(False)
+                harness.warnings_as_errors(False)
+                wctx.__exit__(None, None, None)
             ctx.acc.cls("regression_replays")
             for key in set(ctx.acc.viol) - before:
                 ctx.acc.viol[key]["msg"] = "[regression replay %s] %s" % (os.path.basename(path), ctx.acc.viol[key]["msg"])
